@@ -42,6 +42,8 @@ C(v, a) == "$" \o T(v) \o ":" \o T(a)
 Tri1 == [nv |-> 3, faces |-> << <<0, 1, 2>> >>]
 Quad2 == [nv |-> 4, faces |-> << <<0, 1, 2>>, <<0, 2, 3>> >>]
 Poly == [nv |-> 5, faces |-> << <<0, 1, 2, 3>>, <<0, 3, 4>>, <<4, 3, 2, 1, 0>> >>]
+\* concave quadrilaterals (vertex 6 lies inside the pentagon 0..4): reflex corner listed second / fourth, both orientations
+Dart == [nv |-> 7, faces |-> << <<4, 0, 1, 6>>, <<1, 6, 4, 0>>, <<0, 4, 6, 1>>, <<6, 4, 0, 1>> >>]
 Empty == [nv |-> 0, faces |-> << >>]
 Unused == [nv |-> 4, faces |-> << <<3, 1, 0>> >>]
 
@@ -121,7 +123,7 @@ TriMeshes == IF Tier = "quick" THEN {Tri1, Quad2} ELSE {Tri1, Quad2, Empty, Unus
 PlyMeshes == IF Tier = "quick" /\ ~OnlyValid THEN {Tri1} ELSE TriMeshes
 Variants ==
     CASE Fmt = "off"  -> { [mesh |-> m, var |-> IF s THEN "sameline" ELSE "nextline", lines |-> OffFile(m, s)] :
-                              m \in TriMeshes \cup {Poly}, s \in BOOLEAN }
+                              m \in TriMeshes \cup {Poly, Dart}, s \in BOOLEAN }
       [] Fmt = "stla" -> { [mesh |-> m, var |-> IF n THEN "named" ELSE "anonymous", lines |-> StlaFile(m, n)] :
                               m \in TriMeshes, n \in BOOLEAN }
       [] Fmt = "stlb" -> { [mesh |-> m, var |-> IF s THEN "solid-header" ELSE "zero-header", lines |-> StlbFile(m, s)] :
